@@ -26,7 +26,11 @@ vars == <<case, pc, todo, good, outcome>>
 Present(c) == {n \in Names : c.sigs[n].shape # "absent"}
 
 (* requirement layer *)
-Allowed(c) == IF Meets(c.sigs, c.auth, c.thr, c.gpg) THEN {"accept"} ELSE {"SignatureError"}
+(* authalt: the authorized-key list additionally contains the alternative spelling of key 1 that is used in the      *)
+(* signature map - such a list is not a list of keys (one spelling per key): the call is malformed, never accepted *)
+ArgFamilies == {"TypeError", "ValueError"}
+Allowed(c) == IF c.authalt THEN ArgFamilies
+              ELSE IF Meets(c.sigs, c.auth, c.thr, c.gpg) THEN {"accept"} ELSE {"SignatureError"}
 
 (* implementation layer: the filters of the loop body, in the code's order *)
 NameOK(n) == IF MUTANT = "altname" THEN n[1] \in {"c", "alt"} ELSE IsCanonName(n)
@@ -47,23 +51,24 @@ CaseJson(c) ==
   [ e    |-> [k \in Key |-> LET v == c.sigs[CanonName(k)] IN <<v.shape, v.by, v.over, v.fr, v.ok>>],
     alt  |-> LET v == c.sigs[AltName] IN <<v.shape, v.by, v.over, v.fr, v.ok>>,
     junk |-> LET v == c.sigs[JunkName] IN <<v.shape, v.by, v.over, v.fr, v.ok>>,
-    auth |-> c.auth, thr |-> c.thr, gpg |-> c.gpg,
+    auth |-> c.auth, thr |-> c.thr, gpg |-> c.gpg, authalt |-> c.authalt,
     signers |-> Signers(c.sigs, c.auth, c.gpg),
     strip_ok |-> Meets(Strip(c.sigs, c.auth, c.gpg), c.auth, c.thr, c.gpg),
     allowed |-> Allowed(c) ]
 
 (* one initial state per abstract call (written with \E so that TLC enumerates directly) *)
 Init == /\ \E cs \in [Key -> CanonStates], a \in [AltNames -> AltStates], j \in [JunkNames -> JunkStates],
-              au \in SUBSET Key, t \in 1..MaxThr, g \in BOOLEAN :
-              case = [sigs |-> [n \in Names |-> IF IsCanonName(n) THEN cs[KeyOf(n)] ELSE IF n \in AltNames THEN a[n] ELSE j[n]],
-                      auth |-> au, thr |-> t, gpg |-> g]
+              au \in SUBSET Key, t \in 1..MaxThr, g \in BOOLEAN, aa \in BOOLEAN :
+              /\ (aa => a[AltName] # Absent)
+              /\ case = [sigs |-> [n \in Names |-> IF IsCanonName(n) THEN cs[KeyOf(n)] ELSE IF n \in AltNames THEN a[n] ELSE j[n]],
+                         auth |-> au, thr |-> t, gpg |-> g, authalt |-> aa]
         /\ pc = "start" /\ todo = {} /\ good = {} /\ outcome = "none"
 
 Start == /\ pc = "start"
-         /\ pc' = "loop"
-         /\ todo' = Present(case)
-         /\ UNCHANGED <<case, good, outcome>>
          /\ (Emit => PrintT("@@" \o ToJson(CaseJson(case))))
+         /\ IF case.authalt /\ MUTANT # "altauth_ok"
+              THEN pc' = "done" /\ outcome' = "TypeError" /\ UNCHANGED <<case, todo, good>>      \* argument validation: not a list of keys
+              ELSE pc' = "loop" /\ todo' = Present(case) /\ UNCHANGED <<case, good, outcome>>
 
 
 Examine(n) ==
@@ -89,13 +94,14 @@ Spec == Init /\ [][Next]_vars /\ WF_vars(Next)
 
 (* ---------------------------------------------------------------------- *)
 TypeOK == /\ pc \in {"start", "loop", "done"} /\ todo \subseteq Names
-          /\ outcome \in {"none", "accept", "SignatureError"}
+          /\ outcome \in {"none", "accept", "SignatureError", "TypeError"}
 
 Sound    == (pc = "done" /\ outcome = "accept") => Cardinality(Signers(case.sigs, case.auth, case.gpg)) >= case.thr
-Complete == (pc = "done" /\ Cardinality(Signers(case.sigs, case.auth, case.gpg)) >= case.thr) => outcome = "accept"
+Complete == (pc = "done" /\ ~case.authalt /\ Cardinality(Signers(case.sigs, case.auth, case.gpg)) >= case.thr) => outcome = "accept"
+MalformedNeverAccepted == (pc = "done" /\ case.authalt) => outcome # "accept"
 Refines  == pc = "done" => outcome \in Allowed(case)
 (* loop invariant: the accumulator never holds anything but genuine signers, and holds all examined ones *)
-GoodExact == pc \in {"loop", "done"} =>
+GoodExact == (pc \in {"loop", "done"} /\ ~case.authalt) =>
                good = {CanonName(k) : k \in {s \in Signers(case.sigs, case.auth, case.gpg) : CanonName(s) \notin todo}}
 (* C06, stripping monotonicity at the design level *)
 StripMonotone == Meets(case.sigs, case.auth, case.thr, case.gpg)
